@@ -2174,20 +2174,22 @@ class RawAlgorithmsMixIn:
         Lam_data    = cls._diag(lam_data)
         Lambar_data = cls._diag(lambar_data)
 
-        # STEP 1: compute H
+        # STEP 1: compute H = 1/(lam_n - lam_m) in Taylor arithmetic
+        # (entries with coinciding zeroth coefficients stay zero)
         for m in range(N):
             for n in range(N):
                 for p in range(P):
-                    tmp = lam_data[0,p,n] - lam_data[0,p,m]
-                    if numpy.abs(tmp) > 1e-8:
-                        for d in range(D):
-                            H[d,p,m,n] = 1./tmp
-                # tmp = lam_data[:,:,n] -   lam_data[:,:,m]
-                # cls._truediv(Id, tmp, out = H[:,:,m,n])
+                    tmp = lam_data[:,p,n] - lam_data[:,p,m]
+                    if numpy.abs(tmp[0]) > 1e-8:
+                        # reciprocal of the series tmp
+                        H[0,p,m,n] = 1./tmp[0]
+                        for d in range(1,D):
+                            H[d,p,m,n] = -numpy.sum(tmp[1:d+1] * H[d-1::-1,p,m,n][:d]) / tmp[0]
 
         # STEP 2: compute Lbar +  H * Q^T Qbar
+        # (element-wise product of Taylor polynomials, not of coefficients)
         cls._dot(cls._transpose(Q_data), Qbar_data, out = tmp1)
-        tmp1[...] *= H[...]
+        tmp1 = cls._mul(H, tmp1, out = numpy.zeros_like(tmp1))
         tmp1[...] += Lambar_data[...]
 
         # STEP 3: compute Q ( Lbar +  H * Q^T Qbar ) Q^T
